@@ -52,6 +52,10 @@ def eo1(prog: Program, res: Result, select: Callable[[FuncInfo], bool]) -> None:
             elif s.tag == "C":
                 res.bad("EO-1", s.fi.short, desc, where,
                         f"order={ast.unparse(s.order_expr)} evaluates to C: entries of every non-degenerate shape are moved")
+            elif s.tag == "MEM":
+                res.bad("EO-1", s.fi.short, desc, where,
+                        f"order={ast.unparse(s.order_expr)} follows the memory layout of the operand, which is not fixed "
+                        "(C-contiguous data arises e.g. from growth by assignment or no-copy construction)")
             else:
                 res.undecided("EO-1", s.fi.short, desc, where, f"order expression {ast.unparse(s.order_expr)} not resolvable")
         else:
@@ -246,8 +250,14 @@ def fwd_convention(prog: Program, res: Result, functions: Iterable[str]) -> None
                 selectors.append(n.iter)
             if isinstance(n, ast.For) and isinstance(n.iter, ast.Name) and n.iter.id == o:
                 selectors.append(n.iter)
+        scatter = [n for n in ast.walk(fi.node) if isinstance(n, ast.Subscript) and isinstance(n.ctx, ast.Store)
+                   and any(isinstance(p_, ast.Name) and p_.id == o for p_ in (n.slice.elts if isinstance(n.slice, ast.Tuple) else [n.slice]))]
         where = prog.loc(fi)
-        if bad:
+        if scatter:
+            res.bad("FWD", short, desc, prog.loc(fi, scatter[0]),
+                    f"`{ast.unparse(scatter[0])} = ...` scatters by {o}: the result is the operand permuted by the INVERSE of {o} "
+                    "(wrong for every non-involutive order, e.g. a 3-cycle), while the sibling classes gather (permute forward)")
+        elif bad:
             res.bad("FWD", short, desc, prog.loc(fi, bad[0]),
                     f"np.argsort({o}) is used: this class would permute by the inverse while its siblings permute forward")
         elif selectors:
